@@ -449,6 +449,7 @@ func (vt *Model) print(seq ansi.Print) {
 	col := vt.cursor.col
 	rw := vt.cursor.row
 
+	vt.splitWide()
 	if vt.mode.irm {
 		line := vt.activeScreen[rw]
 		for i := vt.margin.right; i > col; i -= 1 {
@@ -499,6 +500,22 @@ func (vt *Model) print(seq ansi.Print) {
 		if vt.mode.decawm {
 			vt.lastCol = true
 		}
+	}
+}
+
+// splitWide is called before the cell under the cursor is overwritten, erased
+// or shifted. If that cell is the right half of a wide character the
+// character can no longer be displayed, and its left half becomes a blank
+func (vt *Model) splitWide() {
+	col := vt.cursor.col
+	rw := vt.cursor.row
+	if rw < 0 || int(rw) >= vt.height() || col < 1 || int(col) >= vt.width() {
+		return
+	}
+	left := &vt.activeScreen[rw][col-1]
+	if left.Width > 1 {
+		left.Grapheme = " "
+		left.Width = 1
 	}
 }
 
